@@ -31,7 +31,9 @@ func init() {
 			{ID: "C06-R8", Title: "arm/disarm pairing on every exit (shared with C07-R2)", Floor: 2, Run: c07r2},
 			{ID: "C06-R9", Title: "child processes are killed on cancellation (a replaced Cmd.Cancel is bounded by WaitDelay)", Floor: 1, Run: cancelNeedsWaitDelay},
 			{ID: "C06-R10", Title: "clones are armed for the context before they are used", Floor: 2, Run: clonesArmedBeforeUse},
-			{ID: "C06-R11", Title: "the halt flag is cleared only by arming and reset", Floor: 2, Run: haltClearedOnlyWhenArming},
+			{ID: "C06-R11", Title: "the halt flag is cleared only by the arming function", Floor: 1, Run: haltClearedOnlyWhenArming},
+			{ID: "C06-R12", Title: "a context that is over already is refused before anything runs", Floor: 1, Run: finishedContextIsRefused},
+			{ID: "C06-R13", Title: "an error is wrapped as it is, not re-rendered through its text (shared with C01)", Floor: 1, Run: messagesAreNotFormats},
 		},
 	})
 }
